@@ -253,6 +253,7 @@ PROPS = {
         "assumptions": ["paths are '/'-separated, without a trailing separator and without '.' / '..' components",
                         "a hydrogen is an ATOM / HETATM record (an atom_site row) whose atom gets hydrogen as its element by the rule of Atom::new: the element text in either case, else the whole atom name, else the name's first letter when that is one of C H N O S (the readers compared the raw text with H until fix dff6518)",
                         "metadata records precede the coordinates (only_first_model stops reading at the second MODEL record) and the rows of one mmCIF model are contiguous",
+                        "the two records between which an atom serial number wraps (99999 and 0) are not hydrogens: without one of them the rest of the text has two atoms of one serial number in a model and its ANISOU records cannot tell them apart (the text with the hydrogen records deleted is then not well-formed)",
                         "the PDB theorem excludes hydrogen lines that also carry a lexing diagnostic (their diagnostic is reported even though the atom is discarded)"],
     },
     "C06": {
